@@ -28,7 +28,11 @@ RULE = ("same configurations as C01 (class x constructor options x parameter/con
         "the rounding noise bound of the quotient is below 1e-6, the jacobian must equal the 5-point central difference of the real forward to 1e-4 (points "
         "where the implementation's two step sizes disagree by > 1e-6 are counted, not judged). Softmax: all "
         "rows of dimension 1-3 (4) over a 5-value alphabet, d x d numerical partials, determinant. "
-        "Non-trivial = judged by at least one oracle; cases are distinct lattice points of distinct configurations.")
+        "Non-trivial = judged by at least one oracle; cases are distinct lattice points of distinct configurations. "
+        "OBJECT HISTORIES: per class, every pair of configurations (X = defaults with <= 1 deviation, Y = X with one "
+        "parameter or constant moved to another lattice value) x f1, f2 in {forward, jacobian} x route of the change {attribute, "
+        "item, params/constants item, values vector} (+ f1 made on another object of the class): f1 at X, change by name, "
+        "f2 at Y on the same array object must equal, bit for bit, f2 of a fresh object built at Y.")
 ASSUMPTIONS = [
     "scope is decided by the reference model (domain, stated conditioning region, reference round trip <= 1e-8) and by exact tests on x and the parameters (stencil inside one branch); the implementation's output only enters through the stated 'two step sizes agree to 1e-6' trust test of the finite difference",
     "5-point stencil truncation error <= (2^-7)^4 ~ 4e-9 relative for the smooth branches at the chosen local length scale; tolerance 1e-4 as quoted in the property",
@@ -54,7 +58,11 @@ def bound_text(tier, seed):
 
 
 def units(tier, seed):
-    return H.make_units(tier, seed, PER_UNIT.get(tier, 12))
+    us = H.make_units(tier, seed, PER_UNIT.get(tier, 12))
+    # histories of one object: used at X, one parameter / constant changed by name, used again (see _transforms.py)
+    us += [{"kind": "history", "cls": cls, "tier": tier, "seed": seed} for cls in H.CLASSES
+           if cls not in ("Identity", "Softmax")]
+    return us
 
 
 def call(f, *args):
@@ -496,6 +504,10 @@ def run_unit(unit, ctx):
         ctx.case(False, n=0, sample={"softmax_d": unit["d"], "tier": tier, "seed": seed})
         check_softmax(ctx, T, unit["d"], tier, seed)
         return
+    if unit.get("kind") == "history":
+        ctx.case(False, n=0, sample={"history-unit": cls, "tier": tier, "seed": seed})
+        H.run_history(ctx, T, cls, tier, seed, ['forward', 'jacobian'])
+        return
     first = True
     for cfg in H.unit_configs(unit):
         if first:
@@ -508,6 +520,8 @@ def replay(case):
     from mc.explore import Result
     from hydrodiy.stat import transform as T
     ctx = Result()
+    if "history" in case:
+        return H.replay_history(T, case)
     if "softmax_d" in case:
         check_softmax(ctx, T, case["softmax_d"], case["tier"], case["seed"])
     else:
